@@ -71,19 +71,48 @@ def verify(src, sid, prop):
     print(f'{sid}: verified -> {out}')
     return True
 
-def check(sid, tier='quick', props=None):
+def make_overlay(sid):
+    """patched copies of the changed files outside /repo + an overlay.json for go build -overlay"""
+    out = f'{V}/seeded/{sid}'
+    d = f'/root/scratch/seedov-{sid}'
+    shutil.rmtree(d, ignore_errors=True)
+    sh(['git', '-C', '/repo', 'worktree', 'prune'])
+    r = sh(['git', '-C', '/repo', 'worktree', 'add', '--detach', '-f', d, 'HEAD'])
+    assert r.returncode == 0, r.stderr
+    r = sh(['git', 'apply', f'{out}/patch.diff'], cwd=d)
+    assert r.returncode == 0, r.stderr
+    files = sh(['git', 'diff', '--name-only'], cwd=d).stdout.split()
+    keep = f'{V}/work/seedov/{sid}'
+    shutil.rmtree(keep, ignore_errors=True)
+    os.makedirs(keep, exist_ok=True)
+    rep = {}
+    for i, f in enumerate(files):
+        dst = f'{keep}/{i}_{os.path.basename(f)}'
+        shutil.copy(f'{d}/{f}', dst)
+        rep['/repo/' + f] = dst
+    json.dump({'Replace': rep}, open(f'{keep}/overlay.json', 'w'))
+    sh(['git', '-C', '/repo', 'worktree', 'remove', '--force', d])
+    sh(['git', '-C', '/repo', 'worktree', 'prune'])
+    return f'{keep}/overlay.json'
+
+def check(sid, tier='quick', props=None, mode=None):
     out = f'{V}/seeded/{sid}'
     meta = json.load(open(f'{out}/meta.json'))
     props = props or [meta['breaks_property']]
-    st = sh(['git', '-C', '/repo', 'status', '--porcelain'])
-    assert st.stdout.strip() == '', '/repo is not clean'
-    r = sh(['git', '-C', '/repo', 'apply', f'{out}/patch.diff'])
-    assert r.returncode == 0, r.stderr
+    mode = mode or os.environ.get('SEED_MODE', 'apply')
+    env = dict(ENV)
+    if mode == 'overlay':
+        env['VERIF_OVERLAY'] = make_overlay(sid)
+    else:
+        st = sh(['git', '-C', '/repo', 'status', '--porcelain'])
+        assert st.stdout.strip() == '', '/repo is not clean'
+        r = sh(['git', '-C', '/repo', 'apply', f'{out}/patch.diff'])
+        assert r.returncode == 0, r.stderr
     res = {}
     try:
         for p in props:
             t0 = time.time()
-            r = subprocess.run([f'{V}/check.sh', p, tier], env=ENV, capture_output=True, text=True)
+            r = subprocess.run([f'{V}/check.sh', p, tier], env=env, capture_output=True, text=True)
             caught = r.returncode == 1 and f'VIOLATION property={p}' in r.stdout
             first = next((l for l in r.stderr.splitlines() if l.startswith('----')), '')
             msg = ''
@@ -92,11 +121,12 @@ def check(sid, tier='quick', props=None):
                 if l.startswith('----'):
                     msg = ' | '.join(lines[i + 1:i + 3])[:300]
                     break
-            res[p] = {'caught': caught, 'exit': r.returncode, 'tier': tier, 's': round(time.time() - t0, 1), 'first': first, 'msg': msg}
+            res[p] = {'caught': caught, 'exit': r.returncode, 'tier': tier, 's': round(time.time() - t0, 1), 'first': first, 'msg': msg, 'applied_by': mode}
             print(f"{sid} {p} {tier}: {'CAUGHT' if caught else 'MISSED'} exit={r.returncode} {res[p]['s']}s {first} {msg[:160]}")
     finally:
-        sh(['git', '-C', '/repo', 'checkout', '--', '.'])
-        subprocess.run([f'{V}/tools/clean.sh'])
+        if mode != 'overlay':
+            sh(['git', '-C', '/repo', 'checkout', '--', '.'])
+        subprocess.run(['rm', '-f'] + [os.path.join(f'{V}/replays', x) for x in os.listdir(f'{V}/replays')])
     meta.setdefault('checks', {}).update(res)
     json.dump(meta, open(f'{out}/meta.json', 'w'), indent=1)
     return res
